@@ -8,13 +8,13 @@ CC   ?= gcc
 CLANGXX ?= clang++
 B := build
 ABSB := $(abspath $(B))
-COMMON := -std=c++17 -I$(INC) -Isim -g -Wall -Wno-unused-function -Wno-unused-variable -Wno-sign-compare -Wno-unused-but-set-variable -DALLENABY_RLBOX_VERIF -DGUESTLIB_DIR='"$(ABSB)"'
+COMMON := -std=c++17 -I$(INC) -Isim -g -Wall -Wno-unused-function -Wno-unused-variable -Wno-sign-compare -Wno-unused-but-set-variable -Wno-mismatched-new-delete -DALLENABY_RLBOX_VERIF -DGUESTLIB_DIR='"$(ABSB)"'
 PLAIN := $(COMMON) -O1
 ASAN  := $(COMMON) -O1 -fsanitize=address -fno-omit-frame-pointer -DSIM_BUILD_NAME='"asan"'
 TLS   := $(COMMON) -O1 -DRLBOX_EMBEDDER_PROVIDES_TLS_STATIC_VARIABLES -DSIM_BUILD_NAME='"tls"'
 LIBS := -lpthread -ldl
 
-TARGETS := apptoken mem mem.p64 callback callback.tls invoke toctou toctou.asan bulk bulk.asan bulk.nogrant transition.hooks transition.timing transition.both threads threads.tsan threads.tls
+TARGETS := apptoken mem mem.p64 mem.pvoid callback callback.tls invoke toctou toctou.asan bulk bulk.asan bulk.nogrant transition.hooks transition.timing transition.both threads threads.tsan threads.tls
 
 all: $(addprefix $(B)/,$(TARGETS))
 
@@ -65,6 +65,9 @@ $(B)/threads.tsan: worlds/threads.cpp $(B)/sched.clang.o $(HDRS) $(SIMH) | $(B)
 
 $(B)/mem.p64: worlds/mem.cpp $(HDRS) $(SIMH) | $(B)
 	$(CXX) $(PLAIN) -DSIM_PTR_T=uint64_t -DSIM_BUILD_NAME='"p64"' $< -o $@ $(LIBS)
+
+$(B)/mem.pvoid: worlds/mem.cpp $(HDRS) $(SIMH) | $(B)
+	$(CXX) $(PLAIN) -DSIM_PTR_T=uint64_t -DSIM_PTR_AS_POINTER -DSIM_BUILD_NAME='"pvoid"' $< -o $@ $(LIBS)
 
 $(B)/%: worlds/%.cpp $(HDRS) $(SIMH) | $(B)
 	$(CXX) $(PLAIN) $< -o $@ $(LIBS)
